@@ -260,6 +260,38 @@ func scLastInvalid(r *gen.Rand, name string, k int) Case {
 	return b.done()
 }
 
+// scDownloadStale: the tampered body comes through the download path as a tip extension (the
+// index node is deleted after the failed execution, the body stays in the store); a competing
+// block takes the height; the genuine block then arrives as a SIDE block: dbMaybeStoreBlock skips
+// it ("header existed"), and when its branch becomes the heavier one the stale body is executed.
+func scDownloadStale(r *gen.Rand, name string, k int) Case {
+	b := newCase(name, r.Bool(), 600, 200)
+	tag := 1
+	ws := b.trunk(r, 0, margin-1+r.Intn(3), &tag)
+	tip := ws[len(ws)-1]
+	x := b.validBlk(tip, 2+r.Intn(2), &tag, opt())
+	o := opt()
+	o.salt = 1
+	z := b.validBlk(tip, 1, &tag, o)
+	oh := opt()
+	oh.work = 9000
+	y := b.validBlk(x, 1, &tag, oh)
+	z2 := b.validBlk(z, 1, &tag, opt())
+	mut, _ := b.mutate(r, k, x, &tag)
+	b.deliver(mut, "d", bc(r))
+	b.op("stored %d", x)
+	b.deliver(z, "p", bc(r))
+	b.deliver(x, "p", bc(r))
+	b.op("stored %d", x)
+	b.op("chain")
+	b.deliver(y, "p", bc(r))
+	b.op("chain")
+	b.deliver(z2, "p", bc(r))
+	b.deliver(x, "p", bc(r))
+	b.observe()
+	return b.done()
+}
+
 var sameHdrKinds = []int{mReorder, mAlter, mAlterSig, mResign, mDuplicate, mBlockSig}
 
 // GenC27 is the case generator of h_c27.
@@ -282,6 +314,9 @@ func GenC27(seed uint64) []Case {
 	}
 	for i := 0; i < gen.Scale(2, 40); i++ {
 		cs = append(cs, scSide(r, fmt.Sprintf("side-dl%d", i), sameHdrKinds[r.Intn(len(sameHdrKinds))], true))
+	}
+	for _, k := range []int{mReorder, mAlterSig, mBlockSig} {
+		cs = append(cs, scDownloadStale(r, "dlstale-"+mutName[k], k))
 	}
 	for _, k := range []int{mStateHash, mTxHash, mReorder, mAlterSig, mDrop, mTime} {
 		cs = append(cs, scLastInvalid(r, "lastinvalid-"+mutName[k], k))
